@@ -73,7 +73,20 @@ pub fn check_image<H: HashAlgorithm>(e: &mut Exec<'_, H>, img: &ImageRec, snap: 
         let nomt = Nomt::<H>::open(to_options(&img.path, &snap.opts))
             .map_err(|err| v(prop, "image-does-not-open", format!("{what}: the directory cannot be opened again: {err:#}"), img.step))?;
         // nested crash points are placed inside recovery only
-        if nested { e.disk.clear_nested_plan(); }
+        if nested {
+            e.disk.clear_nested_plan();
+            if e.scen.checks.rules {
+                // r3 also binds recovery: the wal may be discarded only once the replayed pages are durable
+                if let Some(id) = e.disk.dir_id(&img.path) {
+                    let tr: Vec<crate::disk::EventRec> = e.disk.trace().into_iter().filter(|x| x.dir == id).collect();
+                    if let Err((class, detail)) = crate::rules::check_sync_rules(&tr) { return Err(v("C04", &class, format!("{what}, during recovery: {detail}"), img.step)); }
+                }
+            }
+            if prop == "C04" {
+                // power loss right after recovery returned: still old-or-new
+                e.disk.fork_power_image_rec(&img.path, 0, img.step, "post-recovery");
+            }
+        }
         let root = nomt.root().into_inner();
         let seqn = nomt.sync_seqn();
         let r_old = ref_trie::<H>(&snap.old, &mut e.hc).hash();
@@ -122,7 +135,7 @@ pub fn check_image<H: HashAlgorithm>(e: &mut Exec<'_, H>, img: &ImageRec, snap: 
             let mut actuals = Vec::new();
             for (j, k) in batch.iter().enumerate() {
                 if st.contains_key(k) && r.chance(1, 3) { actuals.push((*k, KeyReadWrite::Write(None))); st.remove(k); }
-                else { let vs = VSpec { len: *r.pick(&[5u32, 40, 1332, 1400, 9000]), stamp: 0xF000_0000 + j as u32 + (img.event as u32) * 16 }; actuals.push((*k, KeyReadWrite::Write(Some(value_bytes(k, vs))))); st.insert(*k, vs); }
+                else { let vs = VSpec { len: *r.pick(&[5u32, 40, 1332, 1400, 9000]), stamp: 0xF000_0000u32.wrapping_add(j as u32).wrapping_add((img.event as u32).wrapping_mul(16)) }; actuals.push((*k, KeyReadWrite::Write(Some(value_bytes(k, vs))))); st.insert(*k, vs); }
             }
             let fin = sess.into_inner().finish(actuals).map_err(|err| v(prop, "image-further-commit", format!("{what}: finish failed: {err:#}"), img.step))?;
             fin.commit(&nomt).map_err(|err| v(prop, "image-further-commit", format!("{what}: a further commit on the reopened store failed: {err:#}"), img.step))?;
